@@ -342,7 +342,10 @@ def run(ctx):
             e2 = cfg.get_params_error(data=[data], phsp=[phsp], bg=[None], batch=400, method="hesse")
             e3 = cfg.get_params_error(data=[data], phsp=[phsp], bg=[None], batch=400)
             e4 = cfg.get_params_error(data=[data], phsp=[phsp], bg=[None], batch=400, method="3-point")
-        for label, err in (("cal_hesse_error", np.array(e1)), ("get_params_error(hesse)", np.array([e2[k] for k in tv])),
+            # numerically corrected Hessian entries for user-named parameters (diagonal and off-diagonal branches of cal_hesse_correct)
+            corr = [tv[int(j_)] for j_ in rng.choice(n, size=min(2, n), replace=False)]
+            e5 = cfg.get_params_error(data=[data], phsp=[phsp], bg=[None], batch=400, method="correct", correct_params=corr)
+        for label, err in (("get_params_error(correct, correct_params)", np.array([e5[k] for k in tv])), ("cal_hesse_error", np.array(e1)), ("get_params_error(hesse)", np.array([e2[k] for k in tv])),
                            ("get_params_error(default)", np.array([e3[k] for k in tv])), ("get_params_error(3-point)", np.array([e4[k] for k in tv]))):
             worst = float(np.max(np.abs(err - ref) / ref))
             ctx.dev("hesse error rel dev", worst, 2e-3)
